@@ -82,6 +82,36 @@ def encode(t):
     return {'n': n, 'root': root, 'left': left, 'right': right, 'red': red, 'height': height(t), 'id': 'n%d_%s' % (n, hashlib.sha1(code.encode()).hexdigest()[:8]), 'code': code}
 
 
+def is_valid(t):
+    def bh(t):
+        if t is None:
+            return 0
+        lr, rr = is_red(t[1]), is_red(t[2])
+        if t[0] and (lr or rr):
+            return -1
+        if rr and not lr:
+            return -1
+        a, b = bh(t[1]), bh(t[2])
+        if a < 0 or b < 0 or a != b:
+            return -1
+        return a + (0 if t[0] else 1)
+    return (not is_red(t)) and bh(t) >= 0
+
+
+@functools.lru_cache(maxsize=None)
+def all_coloured(n):
+    """every binary tree shape with exactly n nodes under every red/black colouring (valid or not)"""
+    if n == 0:
+        return (None,)
+    out = []
+    for k in range(n):
+        for l in all_coloured(k):
+            for r in all_coloured(n - 1 - k):
+                out.append((False, l, r))
+                out.append((True, l, r))
+    return tuple(out)
+
+
 if __name__ == '__main__':
     nmax = int(sys.argv[1]) if len(sys.argv) > 1 else 7
     ts = trees_upto(nmax)
